@@ -33,11 +33,18 @@ def one_config(job):
         sm.sun_alt_cut = float(np.radians(rng.choice([-18.0, -12.0, -6.0, 0.0])))
         sm.moon_alt_cut = float(np.radians(rng.choice([0.0, -5.0, 10.0])))
         sm.moon_min_phase_angle_cut = float(np.radians(rng.choice([150.0, 90.0, 170.0])))
-        N = int(rng.choice([1, 7, 50, job["ninst"]]))
+        N = int(rng.choice([1, 7, 50, job["ninst"], int(rng.integers(2, 400)), int(rng.integers(2, 400))]))
         g = RegionGeomToO(cfg)
         H, R = float(g.core_alt), float(g.earth_radius)
         ip, t = cfg.detector.initial_position, cfg.simulation.target
         meta0 = dict(spec, N=N)
+        # the time grid alone, for a run of consecutive N (cheap: no coordinate transforms)
+        n0 = int(rng.integers(1, 3500))
+        for NN in list(range(n0, n0 + 40)) + [49, 98, 103, 196, 1000, 1700]:
+            tt = g.generate_times(int(NN))
+            off = np.atleast_1d((tt - g.too_source.eventtime).sec)
+            ev.append({"kind": "grid", "N": int(NN), "T": bits(t.source_obst), "tsec": [bits(x) for x in off],
+                       "_m": dict(meta0, grid_N=int(NN), count=int(len(off)))})
         for entry in ("throw", "call"):
             if entry == "throw":
                 g.throw(N)
